@@ -1,0 +1,21 @@
+//go:build verif
+
+package sm4
+
+import "crypto/cipher"
+
+// Exports for the verification harness (portable code and tables).
+
+func VerifExpandKey(key []byte) (enc, dec [32]uint32) {
+	expandKey(key, &enc, &dec)
+	return
+}
+
+func VerifCryptoBlock(rk *[32]uint32, dst, src []byte)   { cryptoBlock(src, dst, rk) }
+func VerifCryptoBlockX2(rk *[32]uint32, dst, src []byte) { cryptoBlockX2(src, dst, rk) }
+
+func VerifNewCipherGeneric(key []byte) (cipher.Block, error) { return newCipherGeneric(key) }
+
+func VerifTables() (sb [256]byte, t0, t1, t2, t3 [256]uint32, cks [32]uint32, fks [4]uint32) {
+	return sbox, s0, s1, s2, s3, ck, [4]uint32{fk0, fk1, fk2, fk3}
+}
